@@ -208,6 +208,8 @@ def run(ck, tier):
     _acc2.run2(ck, F, 'C04')
     from . import relations as _rel
     _rel.run(ck, F, 'C04')
+    from . import guards as _grd
+    _grd.run(ck, F, 'C04')
     from . import siblings as _sib
     _sib.check(ck, F, 'C04')
     run_agreement(ck, F)
